@@ -9,7 +9,7 @@ def plan(tier):
         Cond("vf.h.h_req", "h_price_order", case=1, timeout=600, label="H01d-price-keys", weight=5),
     ]
     for case in range(8):
-        conds.append(Cond("vf.h.h_order", "h_step", case=case, timeout=1500, label=f"H01e-step[v0cell={case // 2},v1cell={case % 2}]", weight=40))
+        conds.append(Cond("vf.h.h_order", "h_step", case=case, timeout=900, label=f"H01e-step[v0cell={case // 2},v1cell={case % 2}]", weight=40))
     conds.append(Cond("vf.sites", "inventory", case=0, timeout=120, engine="smt", label="H01-site-inventory", weight=1))
     return {
         "conds": conds,
@@ -22,7 +22,7 @@ def plan(tier):
         "entry_points": ["assignment_ops.nearest_shortest_queue_ranking", "H3Ops.nearest_entity", "ChargingPriceUpdate.update/_map_to_station_ids", "StepSimulation.update",
                          "Dispatcher.generate_instructions", "ChargingFleetManager.generate_instructions", "instruction_generator_ops.generate_instructions"],
         "bounds": ["containers of 2-3 elements (all permutations in the solver's domain)", "ranking: 3 plug types, installed 0..3, queued 0..4", "nearest: 3 stations in 3 search cells of ring 1, distances 0..3, validity bits",
-                   "step: 2 vehicles (one in both fleets), 2 requests of either fleet, energy of v1 in [1,50] kWh, 4x2 placements"],
+                   "step: 2 vehicles (one in both fleets), 2 requests of either fleet, energy of v1 from {2, 8, 40} kWh, 4x2 placements"],
         "outside": ["whole scenarios through file handlers", "order-insensitivity of sites classified by form is a syntactic argument", "numpy/scipy tie-breaking (deterministic C code)",
                     "float summation order in SummaryStats"],
         "stubs": C.STUBS_COMMON + C.STUBS_UPD + ["OrderedView stands in for set/frozenset/k_ring results (also in replay: a hash seed cannot be steered to a chosen permutation)"],
